@@ -45,6 +45,7 @@ func runC20(r *Run) {
 		c20Stats(r)
 	}
 	c20ServerReset(r)
+	c20WrappedError(r)
 }
 
 // c20Chain: server-side chains of 1..6 interceptors that rewrite request, reply and context.
